@@ -108,9 +108,12 @@ type hGen struct {
 	qports          []string
 	qBurst          int // extra fresh queries after every mutation (eviction profile)
 	forceSmallCache bool
+	nsNames         []string
+	defNS           bool // the first namespace is `default`, and policies in it often leave the namespace field out
+	odd             bool // some questions cannot be answered (a port given by name), some egress rules name their port
 }
 
-func (g *hGen) ns() string { return pick(g.r, hNS[:g.nsN]) }
+func (g *hGen) ns() string { return pick(g.r, g.nsNames[:g.nsN]) }
 
 func (g *hGen) proto() string {
 	if g.tcpOnly {
@@ -135,7 +138,15 @@ func (g *hGen) sel(keys, vals []string) metav1.LabelSelector {
 	return hSelector(g.r, keys, vals)
 }
 
-func (g *hGen) obj(kind string, v interface{}) job.Obj { return job.Obj{Kind: kind, JSON: mustJSON(v)} }
+func (g *hGen) obj(kind string, v interface{}) job.Obj {
+	if np, ok := v.(*netv1.NetworkPolicy); ok && g.defNS && np.Namespace == "default" && g.r.chance(1, 2) {
+		// the same policy as a manifest without the namespace field: still the policy default/<name>
+		c := np.DeepCopy()
+		c.Namespace = ""
+		v = c
+	}
+	return job.Obj{Kind: kind, JSON: mustJSON(v)}
+}
 
 func (g *hGen) add(op string, o ...job.Obj) {
 	g.steps = append(g.steps, job.Step{Kind: job.Op, Op: op, Objs: o})
@@ -202,12 +213,27 @@ func (g *hGen) mkPod(ns, name string) *corev1.Pod {
 // ownerPorts: pods of one (owner, label set, epoch) have identical container ports.
 func ownerPorts(ownerKey string, labels map[string]string, epoch int) []corev1.ContainerPort {
 	pr := sub(0x15, ownerKey, fmt.Sprint(labels), epoch)
+	if epoch > 0 && pr.chance(1, 3) {
+		// the smallest possible re-port: names and numbers stay, one named port changes its protocol
+		prev := ownerPorts(ownerKey, labels, epoch-1)
+		if len(prev) > 0 {
+			ports := append([]corev1.ContainerPort{}, prev...)
+			i := pr.intn(len(ports))
+			if ports[i].Protocol == corev1.ProtocolTCP {
+				ports[i].Protocol = corev1.ProtocolUDP
+			} else {
+				ports[i].Protocol = corev1.ProtocolTCP
+			}
+			return ports
+		}
+	}
 	var ports []corev1.ContainerPort
 	if pr.chance(2, 3) {
-		ports = append(ports, corev1.ContainerPort{Name: "http", ContainerPort: pick(pr, []int32{80, 8080, 443}), Protocol: corev1.ProtocolTCP})
+		// the name stands for a number and a protocol; a new epoch may change either (http/3 is UDP)
+		ports = append(ports, corev1.ContainerPort{Name: "http", ContainerPort: pick(pr, []int32{80, 8080, 443}), Protocol: []corev1.Protocol{corev1.ProtocolTCP, corev1.ProtocolUDP}[pr.weighted([]int{3, 1})]})
 	}
 	if pr.chance(1, 3) {
-		ports = append(ports, corev1.ContainerPort{Name: "dns", ContainerPort: 53, Protocol: corev1.ProtocolUDP})
+		ports = append(ports, corev1.ContainerPort{Name: "dns", ContainerPort: 53, Protocol: []corev1.Protocol{corev1.ProtocolUDP, corev1.ProtocolTCP}[pr.weighted([]int{3, 1})]})
 	}
 	return ports
 }
@@ -294,7 +320,7 @@ func (g *hGen) mkNetpol(ns, name string) *netv1.NetworkPolicy {
 		np.Spec.Ingress = append(np.Spec.Ingress, netv1.NetworkPolicyIngressRule{From: peer(), Ports: ports(true)})
 	}
 	for i, n := 0, r.between(0, 2); i < n; i++ {
-		np.Spec.Egress = append(np.Spec.Egress, netv1.NetworkPolicyEgressRule{To: peer(), Ports: ports(false)})
+		np.Spec.Egress = append(np.Spec.Egress, netv1.NetworkPolicyEgressRule{To: peer(), Ports: ports(g.odd)})
 	}
 	switch r.intn(4) {
 	case 1:
@@ -378,6 +404,9 @@ func (g *hGen) peerStr() string {
 
 func (g *hGen) newQuery() job.Step {
 	q := job.Step{Kind: job.Query, Src: g.peerStr(), Dst: g.peerStr(), Proto: g.proto(), Port: pick(g.r, g.qports)}
+	if g.odd && g.r.chance(1, 4) {
+		q.Port = pick(g.r, []string{"http", "http", "dns", ""})
+	}
 	if len(g.touched) > 0 && g.r.chance(1, 2) {
 		if g.r.chance(2, 3) {
 			q.Dst = pick(g.r, g.touched)
@@ -568,7 +597,7 @@ func (g *hGen) mutate() {
 			k := pick(r, sortedKeys(g.nps))
 			ns, name := splitKey(k)
 			objs = append(objs, g.obj("NetworkPolicy", g.mkNetpol(ns, name)))
-			n := pick(r, hNS[:g.nsN])
+			n := pick(r, g.nsNames[:g.nsN])
 			g.nss[n] = true
 			objs = append(objs, g.obj("Namespace", g.mkNamespace(n)))
 		}
@@ -675,6 +704,11 @@ func genHistory(r *rng, n int) *history {
 		g.weights = append(g.weights, b*pick(r, []int{0, 1, 1, 3}))
 	}
 	g.variants = r.chance(1, 4)
+	g.nsNames = hNS
+	if g.defNS = r.chance(1, 5); g.defNS {
+		g.nsNames = []string{"default", "ns1", "ns2"}
+	}
+	g.odd = r.chance(1, 5)
 	g.weights[0] += 2 // a history always has pods
 	g.weights[2]++    // and namespaces
 	g.qports = hPorts
@@ -715,7 +749,7 @@ func genHistory(r *rng, n int) *history {
 	g.anpN = 5
 	// most histories start from a populated world, some from nothing
 	if r.chance(5, 6) {
-		for _, n := range hNS[:g.nsN] {
+		for _, n := range g.nsNames[:g.nsN] {
 			if r.chance(5, 6) {
 				g.nss[n] = true
 				g.add("insert", g.obj("Namespace", g.mkNamespace(n)))
